@@ -104,3 +104,44 @@ def load_snapshot(data, enc):
     if snap is not None:
         snap["errors"] = out.getvalue().count("error with line no")
     return {"lines": [l.decode(enc) for l in split_lines(data)], "snap": snap, "exc": exc}
+
+
+CARRIERS = ("VFrameFormat", "BusType", "ProtocolType")
+
+
+def _kept(attrs, defines):
+    out = []
+    for k, v in attrs.items():
+        k = str(k)
+        if k.startswith("Gen") or k.startswith("System") or k in CARRIERS:
+            continue
+        d = defines.get(k)
+        if d is not None and d.type == "ENUM":
+            continue
+        out.append([k, str(v)])
+    return out
+
+
+def project_final(db):
+    """the matrix dbc.load returns: names, senders, receivers, comments, attributes that are neither carriers nor of an ENUM type"""
+    def sig(s):
+        return {"name": s.name, "receivers": list(s.receivers), "attrs": _kept(s.attributes, db.signal_defines), "comment": _txt(s.comment)}
+    return {"ecus": [e.name for e in db.ecus],
+            "frames": [{"id": int(f.arbitration_id.id), "ext": bool(f.arbitration_id.extended), "name": f.name, "tx": list(f.transmitters),
+                        "rx": list(f.receivers), "attrs": _kept(f.attributes, db.frame_defines), "comment": _txt(f.comment),
+                        "sigs": [sig(s) for s in f.signals]} for f in db.frames],
+            "free": [sig(s) for s in db.signals],
+            "attrs": _kept(db.attributes, db.global_defines)}
+
+
+def load_final(data, enc):
+    """returns {"lines", "final": projection | None, "exc"}"""
+    out = io.StringIO()
+    try:
+        with contextlib.redirect_stdout(out):
+            db = canmatrix.formats.dbc.load(io.BytesIO(data), dbcImportEncoding=enc, dbcImportCommentEncoding=enc)
+        final = project_final(db)
+        exc = None
+    except Exception as e:  # noqa
+        final, exc = None, type(e).__name__ + ": " + str(e)[:160]
+    return {"lines": [l.decode(enc) for l in split_lines(data)], "final": final, "exc": exc}
